@@ -30,6 +30,33 @@ ENTRIES = {
         note="Trusted: Coq kernel, extraction, OCaml driver, harness; Python int semantics = Z (// and % floor); rng.choice(replace=False) "
              "contract and scipy comb(exact) are assumed and checked on every recorded call; n < 0 is outside the quantifier (Python may not "
              "terminate, model uses fuel); score arithmetic after triple formation is C05's."),
+    "C16": dict(
+        text="Theorems (all k>=1, any plates, every selection history from the empty batch in which any allowed plate may be chosen, lists up "
+             "to permutation): allowed is a sub-list of remaining; a sample at 1..k-1 plates makes exactly its remaining plates allowed and at "
+             "least one exists; a new sample needs >= k remaining plates; each prefix has counts <= k and at most one incomplete sample; a batch "
+             "of m*k plates has 0 or k per sample; the policy runs dry only at such a boundary; multi-sample plates refused; select_next_plate's "
+             "arguments and result form a step of that history. Tied to the code by comparing eligible id lists at every state of random "
+             "histories run through the real KPerSamplePlatePolicy and the real select_next_plate on real Screens.",
+        note="Trusted: Coq kernel, extraction, OCaml driver, harness. Assumes plates do not become observed inside a batch. Screen id encoding "
+             "and ScoresHolder storage modelled by their effect."),
+    "C17": dict(
+        text="Theorems (all seed>=0, b>=0, t>=1, n>=0, 0<=chain_index<n_chains): the call trace is reset, set_rng(key (seed,[chain_index])), b "
+             "steps, then n x (t steps, record); exactly b+n*t steps; records exactly after steps b+t..b+n*t; holder ends complete; the key is "
+             "a function of (seed, chain_index), injective in the index and independent of b, t, n; VI models asked once for n. Tied to the code "
+             "by comparing the full event trace of the real sample() on a counting stub, plus key and first draws of the handed Generator.",
+        note="Partial: non-overlap of PCG64 streams for distinct spawn keys is numpy's guarantee (first draws checked only). Negative "
+             "chain_index aliases chain n_chains-1 (observation outside the quantifier). Trusted: Coq kernel, extraction, driver, harness."),
+    "C10": dict(
+        text="Theorems (all n>=1, any sample values, any file iteration order of the decimal group keys): load(save h)=h for every non-empty "
+             "holder within its declared size (number, order, values), fixed point, numeric key sort restores order; concat is chain-major with "
+             "summed declared size; evaluate_model's chain ids label each column with the chain its sample came from on complete chains and "
+             "partial chains are refused; add beyond declared / get out of range / save empty / concat of nothing are Err. Tied to the code by "
+             "running the extracted model and the real ThetaHolder save_h5/load_h5/concat/add/get and evaluate_model.main() on the same cases, "
+             "compared bit-for-bit.",
+        note="Trusted: Coq kernel, extraction, OCaml driver, Python harness; HDF5/h5py storage and from_dicts are modelled as identity on "
+             "(private, shared) and checked bitwise per case; shared parameters are taken from sample 0 (holders mixing different single-effect "
+             "tables are characterised by C10_load_save_general, not counted as violations unless VERIF_C10_STRICT_SHARED=1: the shipped model "
+             "hands the same table to every sample); type guards of combine/concat not modelled."),
 }
 PENDING = "check not built yet in this round; planned in DESIGN.md section 5 (no property is inapplicable in principle)"
 NOT_APPLICABLE = {p: PENDING for p in ["C%02d" % i for i in range(1, 21)] if p not in ENTRIES}
